@@ -212,6 +212,9 @@ func calculateLineItemPrice(item *org.Item, cur currency.Code, rates []*currency
 	if icur == currency.CodeEmpty {
 		icur = cur
 	}
+	if icur.Def() == nil {
+		return fmt.Errorf("invalid currency '%v'", icur)
+	}
 	price := item.Price.MatchPrecision(icur.Def().Zero())
 	if item.Currency == currency.CodeEmpty || item.Currency == cur {
 		item.Price = &price
